@@ -265,6 +265,27 @@ def params : Nat → Nat → List Token → PR (List Name)
           if c.tt = .COMMA then (params f (n + 1) r2).bind fun rest r3 => .ok (t.lexeme :: rest) r3
           else .ok [t.lexeme] r
 
+/-- the initializer clause of `forStatement`: `;`, a `ধরি` declaration, or an expression statement -/
+def forInit (f : Nat) (r1 : List Token) : SR (Option Stmt) :=
+  peekTokS r1 fun i r2 =>
+    if i.tt = .SEMICOLON then .ok none r2 []
+    else if i.tt = .VAR then (varDeclaration f r2).bind fun s r3 => .ok (some s) r3 []
+    else (exprThenSemi f .expr r1).bind fun s r3 => .ok (some s) r3 []
+
+/-- an optional expression: absent iff the next token is `stop` -/
+def optExprUntil (stop : TT) (f : Nat) (r : List Token) : PR (Option Expr) :=
+  peekTok r fun c _ =>
+    if c.tt = stop then .ok none r
+    else (assignment f r).bind fun e r' => .ok (some e) r'
+
+/-- condition `;` increment `)` of `forStatement` -/
+def forHeader (f : Nat) (r3 : List Token) : PR (Option Expr × Option Expr) :=
+  (optExprUntil .SEMICOLON f r3).bind fun cond r4 =>
+    (expectTok .SEMICOLON "Expect ';' after loop condition." r4).bind fun _ r5 =>
+      (optExprUntil .RIGHT_PAREN f r5).bind fun incr r6 =>
+        (expectTok .RIGHT_PAREN "Expect ')' after for clauses." r6).bind fun _ r7 =>
+          .ok (cond, incr) r7
+
 mutual
 
 def declaration : Nat → List Token → SR Stmt
@@ -320,22 +341,10 @@ def statement : Nat → List Token → SR Stmt
           (statement f r3).bind fun b r4 => .ok (.whileS c b) r4 []
       | .FOR =>
         (expectTok .LEFT_PAREN "Expect '(' after 'for'." r).toSR.bind fun _ r1 =>
-          -- initializer
-          (peekTokS r1 fun i r2 =>
-            if i.tt = .SEMICOLON then .ok none r2 []
-            else if i.tt = .VAR then (varDeclaration f r2).bind fun s r3 => .ok (some s) r3 []
-            else (exprThenSemi f .expr r1).bind fun s r3 => .ok (some s) r3 []).bind fun init r3 =>
-          ((peekTok r3 fun c _ =>
-              if c.tt = .SEMICOLON then .ok none r3
-              else (assignment f r3).bind fun e r4 => .ok (some e) r4).bind fun cond r4 =>
-            (expectTok .SEMICOLON "Expect ';' after loop condition." r4).bind fun _ r5 =>
-              (peekTok r5 fun c _ =>
-                if c.tt = .RIGHT_PAREN then .ok none r5
-                else (assignment f r5).bind fun e r6 => .ok (some e) r6).bind fun incr r6 =>
-                (expectTok .RIGHT_PAREN "Expect ')' after for clauses." r6).bind fun _ r7 =>
-                  .ok (cond, incr) r7).toSR.bind fun ci r7 =>
-            (statement f r7).bind fun body r8 =>
-              .ok (.forS init ci.1 ci.2 body) r8 []
+          (forInit f r1).bind fun init r3 =>
+            (forHeader f r3).toSR.bind fun ci r7 =>
+              (statement f r7).bind fun body r8 =>
+                .ok (.forS init ci.1 ci.2 body) r8 []
       | .PRINT => exprThenSemi f .print r
       | .RETURN =>
         (peekTok r fun s r1 =>
